@@ -477,7 +477,7 @@ impl Property for C12 {
         (40_000, 1_000_000)
     }
     fn rule(&self) -> &'static str {
-        "logs produced by the real replication loop from 1-14 (short) or 20-60 (long, with bursts of 5-60 writes) operations of {set,remove,create-db,snapshot} over 2-5 databases x 3 keys, with simulated-clock gaps, optional coarse clock (equal consecutive op ids), real rotation (NUN_MAX_OP_LOG_SIZE per worker in {500,2500,10000,default}), real declutter retention and restarts; queries with since in {0, before first, record time -1/0/+1, after last} and last_op_time are compared with a linear scan of the same files. Non-trivial: at least one query ran on a non-empty log. distinct = distinct programs x worker knob."
+        "logs produced by the real replication loop from 1-14 (short) or 20-60 (long, with bursts of 5-60 writes) operations of {set,remove,create-db,snapshot} over 2-5 databases x 3 keys, with simulated-clock gaps, optional coarse clock (equal consecutive op ids), real rotation (NUN_MAX_OP_LOG_SIZE per worker in {500,2500,10000,default,1030,3330}), real declutter retention and restarts; queries with since in {0, before first, record time -1/0/+1, after last} and last_op_time are compared with a linear scan of the same files. Non-trivial: at least one query ran on a non-empty log. distinct = distinct programs x worker knob."
     }
     fn assumptions(&self) -> Vec<String> {
         vec![
@@ -490,8 +490,10 @@ impl Property for C12 {
                "simulated": ["disk (birth times)", "clock (optionally coarse)", "timer"], "stub": []})
     }
     fn worker_env(&self, w: u64, _master: u64) -> Vec<(String, String)> {
-        let sizes = ["500", "2500", "10000", "1073741824"];
-        vec![("NUN_MAX_OP_LOG_SIZE".to_string(), sizes[(w % 4) as usize].to_string())]
+        // (1030 and 3330: a tenth of the size -- the rotation threshold -- is not a multiple of the 25-byte record,
+        //  as with the default size)
+        let sizes = ["500", "2500", "10000", "1073741824", "1030", "3330"];
+        vec![("NUN_MAX_OP_LOG_SIZE".to_string(), sizes[(w % 6) as usize].to_string())]
     }
     fn run_one(&self, scenario: &str, ctx: &RunCtx) -> RunReport {
         let mut rng = Rng::new(ctx.seed);
